@@ -252,6 +252,10 @@ def shrink(c, maxlist=4):
 
 def finish(fam, prop, tier, seed, listed, known, work, harness, verdicts, cov, t0, case_files, extra):
     mine = [v for v in verdicts if fam.owns(v)]
+    if os.environ.get("VERIF_DUMP_VERDICTS"):
+        with open(os.environ["VERIF_DUMP_VERDICTS"], "a") as fh:
+            for v in mine:
+                fh.write(json.dumps({k: x for k, x in v.items() if k != "_file"}) + "\n")
     devs_met = {}
     viol = {}
     for v in mine:
